@@ -165,6 +165,11 @@ class Ctx:
     def violation(self, key, what, witness=None, monitor=None):
         """key: mechanism-level classification used against known_findings.json."""
         self.viol.append({"key": key, "what": what, "monitor": monitor or key.split(":")[0], "witness": jsonable(witness or {})})
+        # a shard that has already collected many violations stops early: the verdict is decided, and a
+        # change that also makes the code much slower would otherwise run into the watchdog
+        if getattr(self, "in_shard", False) and len(self.viol) >= VIOLATION_CAP_PER_SHARD and not getattr(self, "_stopping", False):
+            self._stopping = True
+            raise EnoughViolations()
 
     def exception(self, key, what, exc, witness=None, monitor=None):
         w = dict(witness or {})
@@ -335,6 +340,13 @@ def write_replay(ctx, key, v, n):
 
 # ---- parallel sharding ---------------------------------------------------------------
 
+VIOLATION_CAP_PER_SHARD = 25
+
+
+class EnoughViolations(BaseException):
+    """Raised (past `except Exception` handlers) to end a shard whose verdict is already decided."""
+
+
 def _shard_entry(args):
     modname, fname, pid, tier, seed, level, only, shard, payload = args
     import importlib
@@ -343,8 +355,11 @@ def _shard_entry(args):
     faulthandler.enable()
     mod = importlib.import_module(modname)
     ctx = Ctx(pid, tier, seed, level, only)
+    ctx.in_shard = True
     try:
         getattr(mod, fname)(ctx, shard, payload)
+    except EnoughViolations:
+        ctx.obs["shards_stopped_early_after_many_violations"] = 1
     except Inconclusive as e:
         ctx.inconclusive_because(str(e))
     except Exception as e:  # harness error inside a shard is not a verdict about the code
@@ -376,6 +391,12 @@ def run_shards(ctx, modname, fname, payloads, workers=None, timeout=3000):
             ctx.inconclusive_because(f"watchdog: shards did not finish in {timeout}s")
             for f in futs:
                 f.cancel()
+            # do not wait for the shards that are still running
+            for pr in list(getattr(ex, "_processes", {}).values()):
+                try:
+                    pr.terminate()
+                except Exception:
+                    pass
 
 
 def _raw_model(m):
